@@ -9,7 +9,9 @@ python3 - <<'PY'
 import sys, os
 sys.path.insert(0, "tools")
 import vlib
-vlib.build_driver()
+for d in sorted(os.listdir(vlib.OCAML)):
+    if os.path.exists(os.path.join(vlib.OCAML, d, 'driver.ml')):
+        vlib.build_driver(d)
 try:
     vlib.build_grog()
     for h in sorted(os.listdir(vlib.HARNESS)):
